@@ -100,12 +100,13 @@ def check(prog: Program, tier: str) -> Result:
     _r15_9(prog, res, ev)
     _r15_14(prog, res, ev)
     _r15_15(prog, res)
+    _r15_16(prog, res, ev)
     _r15_13(prog, res, ev)
     _r15_10(prog, res, ev)
     _r15_11(prog, res, ev)
     _r15_12(prog, res, ev)
     _r15_7(prog, res, ev)
-    res.floors.update({"R15.1": 23, "R15.2": 18, "R15.3": 2, "R15.4": 10, "R15.5": 2, "R15.6": 2, "R15.9": 2, "R15.10": 5, "R15.11": 8, "R15.12": 3, "R15.13": 2, "R15.14": 1, "R15.15": 2})
+    res.floors.update({"R15.1": 23, "R15.2": 18, "R15.3": 2, "R15.4": 10, "R15.5": 2, "R15.6": 2, "R15.9": 2, "R15.10": 5, "R15.11": 8, "R15.12": 3, "R15.13": 2, "R15.14": 1, "R15.15": 2, "R15.16": 1})
     res.analysed.update({"evaluator_functions": [f.fq for f in ev.members], "external_call_sites": len(ev.call_sites())})
     return res
 
@@ -425,6 +426,46 @@ def _r15_9(prog: Program, res: Result, ev: Evaluator) -> None:
 
 
 # ------------------------------------------------------------------------------------------------ R15.15
+def _r15_16(prog: Program, res: Result, ev: Evaluator) -> None:
+    """A method of a constant is pure, but not every one of them answers the same in every process: `'a'.__hash__()` is the hash() that
+    PURE_BUILTIN_FUNCTIONS leaves out for that reason (hash seed), `__sizeof__`, `__reduce_ex__`, `__dir__` describe the interpreter.  All
+    of them are spelled with a leading underscore.  Where the evaluator calls a method whose NAME comes from the analysed code
+    (`getattr(<value>, <name taken from the tree>)(..)`), it does so only under the negative answer of `<name>.startswith('_')` (or
+    under membership of the name in a table)."""
+    from ..pathcond import plain
+    n = 0
+    for f in ev.members:
+        pa = None
+        for c in prog.calls_in(f):
+            g = c.func
+            if not (isinstance(g, ast.Call) and isinstance(g.func, ast.Name) and g.func.id == "getattr" and len(g.args) == 2):
+                continue
+            if norm(g.args[0]) == "builtins" or isinstance(g.args[1], ast.Constant):
+                continue
+            n += 1
+            name = norm(g.args[1])
+            pa = pa or PathAnalysis(prog, f)
+            worlds = pa.worlds_at(c)
+
+            def fenced(w) -> bool:
+                for fct in w.facts:
+                    if fct[0] != "lit":
+                        continue
+                    t = plain(fct[1]).replace('"', "'")
+                    if not fct[2] and t.startswith(name + ".startswith('_") and t.rstrip(")").rstrip("'").endswith("_"):
+                        return True
+                    if fct[2] and t.startswith(name + " in "):
+                        return True
+                return False
+            ok = bool(worlds) and all(fenced(w) for w in worlds)
+            res.decide(ok, "R15.16", f.loc(c), f.fq, f"{short(c, 60)} # a method named by the analysed code is called",
+                       "only for names without a leading underscore (or names of a table)" if ok else
+                       f"any method of the constant is called, also the ones that describe the process and not the value: `'a'.__hash__() % 2` is decided with the "
+                       "hash seed of the formatting process and the program runs with another one")
+    if n == 0:
+        res.undecided("R15.16", "pyrefact/core.py:0", "core", "calls of a method named by the analysed code", "none found (the `''.join(..)` branch of _literal_value is expected)")
+
+
 def _r15_15(prog: Program, res: Result) -> None:
     """`a >= b` is not `not (a < b)`: for partially ordered values (sets that are not subsets of each other, NaN) both are False.
     The negation table (REVERSE_OPERATOR_MAPPING) is a table about SYNTAX that holds for the tests pyrefact swaps
@@ -889,6 +930,12 @@ def _r15_6(prog: Program, res: Result, ev: Evaluator) -> None:
 from ..selftest import Variant  # noqa: E402
 
 VARIANTS = [
+    Variant("dunder-methods-of-constants-called", "FIRE", "core",
+            "        if node.func.attr.startswith(\"_\"):\n            # \"a\".__hash__() is hash(\"a\"), which is another number in every process\n            raise ValueError(\"The value may say something about the process rather than the constant\")\n", "", "R15.16"),
+    Variant("only-the-hash-method-refused", "FIRE", "core",
+            "        if node.func.attr.startswith(\"_\"):\n            # \"a\".__hash__()", "        if node.func.attr == \"__hash__\":\n            # \"a\".__hash__()", "R15.16"),
+    Variant("dunder-methods-refused-by-two-underscores", "SILENT", "core",
+            "        if node.func.attr.startswith(\"_\"):\n            # \"a\".__hash__()", "        if node.func.attr.startswith('__'):\n            # \"a\".__hash__()"),
     Variant("ranges-of-any-length-built-for-comparisons", "FIRE", "core", "    if function_name == \"range\" and not is_method and all(type(arg) is int for arg in args):\n", "    if False and function_name == \"range\" and not is_method:\n", "R15.12",
             extra=[("core", "        return bool(args) and (len(args) > 3 or (len(args) == 3 and args[2] == 0) or len(range(*args)) > limit)\n", "        return False\n")]),
     Variant("operators-applied-without-cost-bound", "FIRE", "core", "        if _is_too_large_to_compute(node.op, left, right):\n            raise ValueError(\"The value is too large to be computed while formatting\")\n", "", "R15.12"),
